@@ -26,6 +26,8 @@ def outcome_variants(rng, n, edges, k, big_p=0.25, missing_p=0.2):
             b = {'rc': 1 if rng.random() < 0.35 else 0, 'sleep_ms': rng.choice([0, 0, 30, 90])}
             if rng.random() < 0.1:          # terminated by a signal: SEGV, KILL, TERM, ABRT
                 b = {'signal': rng.choice([11, 9, 15, 6]), 'sigtouch': rng.random() < 0.5, 'sleep_ms': rng.choice([0, 30])}
+            if rng.random() < 0.08:
+                b['closefds'] = rng.choice([3, 3, 1, 2])      # closes its output streams before it is finished
             if rng.random() < big_p:
                 b['out'] = rng.choice(BIG)
                 b['err'] = rng.choice(BIG)
@@ -70,6 +72,23 @@ def gen_cases(chk, quick):
         cases.append(sc.mk_case(spec, pool, [{'sleep_ms': 40}, {}, {'rc': 0}, {}], label='unspawnable'))
         spec = sc.mk_spec(7, [(w, 0) for w in (2, 3, 4, 5, 6)], unspawnable=[1])
         cases.append(sc.mk_case(spec, pool, [{'sleep_ms': 80}, {}] + [{'sleep_ms': 60} for _ in range(5)], label='unspawnable'))
+    # commands that close/redirect their streams early (exec >log 2>&1), succeed or fail afterwards: verdict only at exit
+    for mode in (3, 1):
+        spec = sc.mk_spec(3, [(1, 0), (2, 1)])
+        cases.append(sc.mk_case(spec, 1, [{'closefds': mode, 'sleep_ms': 80, 'out': 20}, {'closefds': mode, 'sleep_ms': 40, 'rc': 1}, {}], label='closed-streams'))
+    # a command that cannot be STARTED (execve E2BIG: a 140000 character line item; EINVAL: NUL byte) x pool sizes 1..4: as many
+    # unstartable steps as slots, a gate, two steps waiting behind it and an always-dependent of the unstartable ones (seed C11-4)
+    for pool in (1, 2, 3, 4):
+        for how in ('e2big', None):
+            if how is None and pool in (2, 3):
+                continue
+            bads = list(range(1, 1 + pool))
+            n = 1 + pool + 3
+            w1, w2, dep = 1 + pool, 2 + pool, 3 + pool
+            edges = [(w1, 0), (w2, 0)] + [(dep, b) for b in bads]
+            whens = ['by_dependencies'] * (n - 1) + ['always']
+            behav = [{'sleep_ms': 60}] + [{} for _ in bads] + [{'sleep_ms': 30}, {'sleep_ms': 30}, {}]
+            cases.append(sc.mk_case(sc.mk_spec(n, edges, whens=whens, unspawnable=bads, unspawnable_how=how), pool, behav, label=f'unstartable x{pool} ({how or "nul"})'))
     # a command terminated by a signal: ends broken, its dependents get a verdict too, the run terminates
     for sig in (11, 9, 15, 6):
         for w in sc.WHENS:
@@ -177,6 +196,8 @@ def run(chk):
         'a step with 2 and with 3 dependencies under EVERY assignment of success/failure to them, x when of the waiting step x edge kind; '
         'a step whose file dependency does not exist with a chain of dependents (x edge kinds x when), and joins with one or two such steps; '
         'a step whose command cannot be SPAWNED (NUL byte in an exported line_items variable: exec EINVAL) with dependents x when, in a join, and with five steps waiting behind a gate at pools 1 and 2 (also 8 % of the steps of the random families); '
+        'commands that close their output streams before they are finished (8 % of the random steps, chains); as many UNSTARTABLE commands (execve E2BIG through a 140000 '
+        'character line item, EINVAL through a NUL byte) as pool slots for pools 1..4 with a gate, two waiting steps and an always-dependent; '
         'a command TERMINATED BY A SIGNAL (SEGV, KILL, TERM, ABRT; with partial output / output file written) with a chain of dependents x when, in joins, and 10 % of the steps of the random families; '
         'a command writing {0,1000,70000,300000} bytes to stdout x the same to stderr (pipe capacity 65536), succeeding or failing, with a dependent; ' +
         ('60 of the 543 DAGs on 4 steps + all DAGs on 2..3 steps' if quick else 'ALL 543 DAGs on 4 steps x 4 + all DAGs on <= 3 steps x 10 + 150 random DAGs on 5..8 steps') +
